@@ -34,6 +34,10 @@ CAUGHT = {
  'C29-a': (['C29'], ''),
  'C30-a': (['C30'], 'first missed; caught after the C30 generator learned documents with per-line mixed line ends and multi-byte characters on many lines'),
  'C31-a': (['C31'], ''),
+ 'C01-c': (['C01', 'C07'], ''),
+ 'C02-c': (['C02', 'C01'], ''),
+ 'C03-c': (['C03', 'C21'], 'first missed by C03 (C21 caught it); caught by C03 after a quarter of the C01/C03 grammars got AST-control annotations (clipped symbols)'),
+ 'C13-c': (['C13'], 'multi-file demonstration (demo.sh), confirmed by hand, see confirm.log'),
  'C22-b': (['C22'], ''),
  'C23-b': (['C23'], 'first missed by C23 and C10 (the language is unchanged); caught after C22/C23 grammars learned a non-terminal whose alternatives share a prefix symbol while one alternative carries other AST control on it. While looking at the run, a genuine defect was found on the unchanged tree (clipped non-terminal with a user type, fixed in a6bdd54)'),
  'C24-b': (['C24'], 'the inverse of part of fix 5f1abba'),
